@@ -133,42 +133,56 @@ theorem C08_stream_roundtrip_xor (tbl x d1 d2 : Bytes) (a1 a2 : Bool)
   · intro d a _ _; exact ⟨_, rfl, xor_spec tbl _ d a (by show (xorB x tbl).length ≤ _; omega)⟩
   · exact xorB_cancel _ _ (by omega)
 
-/-- salsa20 shell, code as it is: round trip whenever the packet has at least the 8 nonce
-bytes (sessions always pass ≥ 20 bytes, in place).  For 1..7 bytes see
-`C08_salsa_short_counterexample` (defect D4). -/
-theorem C08_stream_roundtrip_salsa20_partial (ks : Bytes → Nat → UInt8) (x d1 d2 : Bytes)
-    (a1 a2 : Bool) (h8 : 8 ≤ x.length)
-    (h1 : x.length ≤ d1.length) (h2 : x.length ≤ d2.length) :
+/-- what the salsa20 shell computes on a packet -/
+def salsaF (ks : Bytes → Nat → UInt8) (x : Bytes) : Bytes :=
+  if x.length < 8 then x else salsaLong ks x
+
+theorem C08_salsa_spec (ks : Bytes → Nat → UInt8) (src dst : Bytes) (alias : Bool)
+    (hlen : src.length ≤ dst.length) (hal : alias = true → dst = src) :
+    (salsaEncrypt ks src dst alias).dst.take src.length = salsaF ks src ∧
+    (salsaDecrypt ks src dst alias).dst.take src.length = salsaF ks src := by
+  by_cases h : src.length < 8
+  · simp only [salsaEncrypt, salsaDecrypt, salsaF, if_pos h, write0_dst]
+    simp
+  · have := salsa_body_spec ks src dst alias (by omega) hlen hal
+    simp only [salsaEncrypt, salsaDecrypt, salsaF, if_neg h]
+    exact ⟨this, this⟩
+
+/-- salsa20 shell (first 8 bytes = nonce, copied; rest XOR keystream(nonce)): round trip for
+EVERY length, every layout, every keystream function.  Holds since the repair of D4
+(`copy(dst, src)` in the short branch); before it the statement failed for 1..7 bytes out of
+place, see `C08_salsa_short_counterexample_prerepair`. -/
+theorem C08_stream_roundtrip_salsa20 (ks : Bytes → Nat → UInt8) (x d1 d2 : Bytes)
+    (a1 a2 : Bool) (h1 : x.length ≤ d1.length) (h2 : x.length ≤ d2.length) :
     RoundTripAt (fun s d a => some (salsaEncrypt ks s d a)) (fun s d a => some (salsaDecrypt ks s d a))
       x d1 d2 a1 a2 := by
-  have hl := length_salsaLong ks x h8
-  refine RoundTripAt.of_spec (F := salsaLong ks) (G := salsaLong ks) ?_ ?_ hl
-    (salsaLong_involutive ks x h8) h1 h2
-  · intro d a hd ha
-    refine ⟨_, rfl, ?_⟩
-    have := salsa_body_spec ks x d a h8 hd ha
-    simp only [salsaEncrypt, if_neg (Nat.not_lt.2 h8)]
-    exact this
-  · intro d a hd ha
-    refine ⟨_, rfl, ?_⟩
-    have := salsa_body_spec ks (salsaLong ks x) d a (by omega) hd ha
-    simp only [salsaDecrypt, if_neg (Nat.not_lt.2 (show 8 ≤ (salsaLong ks x).length by omega))]
-    exact this
+  have hl : (salsaF ks x).length = x.length := by
+    unfold salsaF; split
+    · rfl
+    · exact length_salsaLong ks x (by omega)
+  have hinv : salsaF ks (salsaF ks x) = x := by
+    by_cases h : x.length < 8
+    · simp only [salsaF, if_pos h]
+    · have h8 : 8 ≤ x.length := by omega
+      have : ¬ (salsaLong ks x).length < 8 := by rw [length_salsaLong ks x h8]; exact h
+      simp only [salsaF, if_neg h, if_neg this]
+      exact salsaLong_involutive ks x h8
+  refine RoundTripAt.of_spec (F := salsaF ks) (G := salsaF ks) ?_ ?_ hl hinv h1 h2
+  · intro d a hd ha; exact ⟨_, rfl, (C08_salsa_spec ks x d a hd ha).1⟩
+  · intro d a hd ha; exact ⟨_, rfl, (C08_salsa_spec ks _ d a hd ha).2⟩
 
-/-- the full statement the property asks for -/
-def C08_stream_roundtrip_salsa20_full : Prop :=
-  ∀ (ks : Bytes → Nat → UInt8) (x d1 d2 : Bytes) (a1 a2 : Bool),
-    x.length ≤ d1.length → x.length ≤ d2.length →
-    RoundTripAt (fun s d a => some (salsaEncrypt ks s d a)) (fun s d a => some (salsaDecrypt ks s d a))
-      x d1 d2 a1 a2
-
-/-- D4 on the model: a 1-byte packet encrypted into a separate buffer is not written at all, so
-the round trip returns whatever the destination held.  Replayed on the real code by the oracle
-(`salsa20-short-outofplace`). -/
-theorem C08_salsa_short_counterexample : ¬ C08_stream_roundtrip_salsa20_full := by
+/-- D4 as it was: with the pre-repair body a 1-byte packet encrypted into a separate buffer is
+not written at all, so the round trip returns whatever the destination held.  The oracle
+`salsa20-short-outofplace` replays exactly this on the real code and reports it should the
+defect come back. -/
+theorem C08_salsa_short_counterexample_prerepair :
+    ¬ ∀ (ks : Bytes → Nat → UInt8) (x d1 d2 : Bytes) (a1 a2 : Bool),
+      x.length ≤ d1.length → x.length ≤ d2.length →
+      RoundTripAt (fun s d a => some (salsaCryptPreRepair ks s d a))
+        (fun s d a => some (salsaCryptPreRepair ks s d a)) x d1 d2 a1 a2 := by
   intro h
   obtain ⟨m1, e1, m2, e2, r⟩ := h (fun _ _ => 0) [1] [9] [7] false false (by decide) (by decide)
-  simp only [salsaEncrypt, salsaDecrypt, Bool.false_eq_true, if_false, List.length_cons,
+  simp only [salsaCryptPreRepair, Bool.false_eq_true, if_false, List.length_cons,
     List.length_nil, Option.some.injEq] at e1 e2
   subst e1
   simp at e2
